@@ -429,7 +429,7 @@ func writeSeq(r *ev.Run, name string, maxLen, faultLen, invalidLen int) {
 								r.Violate(ev.Violation{Signature: res.sig, Sub: name, Message: res.msg, Case: cloneCase(&c)})
 							}
 							if (loc.evals+int64(ix)*7919)%sampleEvery == 0 {
-								r.Sample(map[string]any{"sub": name, "case": cloneCase(&c), "outcome": res.outcome.String(), "reference": verdictName(res.verdict)})
+								sample(r, name, map[string]any{"sub": name, "case": cloneCase(&c), "outcome": res.outcome.String(), "reference": verdictName(res.verdict)})
 							}
 						}
 					}
@@ -542,7 +542,7 @@ func writeCuts(r *ev.Run, name string, maxParts int) {
 					r.Violate(ev.Violation{Signature: res.sig, Sub: name, Message: res.msg, Case: c})
 				}
 				if (loc.evals*31+int64(ix))%50021 == 0 {
-					r.Sample(map[string]any{"sub": name, "case": c, "outcome": res.outcome.String(), "reference": verdictName(res.verdict)})
+					sample(r, name, map[string]any{"sub": name, "case": c, "outcome": res.outcome.String(), "reference": verdictName(res.verdict)})
 				}
 			}
 			for _, separateFinish := range []bool{false, true} {
